@@ -6,3 +6,36 @@ T.register("C10", __name__, T.h_vke, {}, [GRAPHS[g] for g in sorted(GRAPHS)], le
            what="validate(o), keys(o), evaluate(o) succeed or fail together (total bodies, in-domain values); bodies run during "
                 "validate/keys are only those needed to choose a branch",
            bounds="one symbolic dictionary; cold caches")
+
+# warm caches: the same agreement after the graph has been evaluated once on the same / a perturbed dictionary (stub S1)
+from engine.catalog import Env
+from engine.graphs import HEAVY, mkdict
+from engine.hutil import note, outcome, quiet
+
+
+def h_vke_warm(gid, pert, **a):
+    g = GRAPHS[gid]
+    oa = mkdict(g.universe, a, "a")
+    ob = T._perturbed(g, a, pert)
+    exp = T.ref_out(g.spec, ob)
+    if exp[0] == "fail" and exp[1] == "domain":
+        return 1
+    env = Env()
+    real = T.fresh(g, env)
+    with quiet():
+        outcome(lambda: real(oa))              # warm every cache of the long-lived graph
+        v = outcome(lambda: real.validate(ob))
+        k = outcome(lambda: real.keys(ob))
+        e = outcome(lambda: real(ob))
+    note("graph", gid, "warmed with", oa, "then", ob, "validate", v, "keys", k, "evaluate", e)
+    if not (T._ok(v) == T._ok(k) == T._ok(e)):
+        return 0
+    return 2 if T._ok(e) else 1
+
+
+_WARM = [GRAPHS[g] for g in ("g11", "g12", "g14", "g15", "g62", "g64", "g65")]
+T.register("C10", __name__, h_vke_warm, {}, _WARM, lemma="agree-warm", name_prefix="vkew", two=True, timeout=600, stubs=("S1",),
+           cubes=lambda g: {"pert": [[j] for j in range(len(g.universe))]},
+           what="after the long-lived graph was evaluated on o_a (warm caches), validate / keys / evaluate on o_b (o_a perturbed in "
+                "one slot, or identical) still succeed or fail together",
+           bounds="7 cached graphs; stub S1")
